@@ -31,9 +31,9 @@ the model; the generator (vf/c13_gen.py) stays away from them:
 * ``offset`` of Pseq/Pser/Place outside ``0 <= offset < len(list)``;
 * ``Pflatten`` of items nested deeper than ``n`` (sclang flattens n levels and
   then spreads, a literal reading of the help text spreads n levels);
-* ``Pconst`` partial sums that come within ``tolerance`` of the target without
-  reaching it (all generated numbers are dyadic rationals, so every reading of
-  "close enough" agrees);
+* ``Pconst`` running totals exactly ``tolerance`` away from the target, and
+  totals inside the tolerance window when the target is not a multiple of the
+  tolerance (see pconst_zone: which sentence decides which edge);
 * ``Pwrap`` / ``clip`` with mixed int receiver and float bounds (C15's matter);
 * Pselect/Preject predicates that do not return a ``bool``.
 
@@ -49,6 +49,7 @@ case is discarded by the caller, never judged.
 
 import itertools
 import operator
+from fractions import Fraction
 
 INF = float('inf')
 
@@ -76,15 +77,21 @@ def _check(v):
 
 
 class Ctx:
-    def __init__(self, fuel=20000, leaves=None, inval=None):
+    def __init__(self, fuel=20000, leaves=None, inval=None, notes=None):
         self.fuel = fuel
         self.leaves = leaves      # callable (randspec, seed) -> list, for Pseed
         self.inval = inval        # the input value handed to every pull
+        self.notes = notes        # dict: which numeric edges the denotation met
+        self.decimal = False      # the expression has decimal float literals
 
     def tick(self, n=1):
         self.fuel -= n
         if self.fuel < 0:
             raise OutOfFuel
+
+    def note(self, name):
+        if self.notes is not None:
+            self.notes[name] = self.notes.get(name, 0) + 1
 
 
 class NoInvalCtx:
@@ -95,9 +102,13 @@ class NoInvalCtx:
     def __init__(self, parent):
         self.parent = parent
         self.leaves = parent.leaves
+        self.decimal = parent.decimal
 
     def tick(self, n=1):
         self.parent.tick(n)
+
+    def note(self, name):
+        self.parent.note(name)
 
 
 def iv(inval):
@@ -396,19 +407,96 @@ def _pdiff(node, c):
         prev = v
 
 
+DEFAULT_TOLERANCE = 0.001      # the port's signature (and sclang's)
+GUARD = Fraction(1, 10 ** 9)
+
+
+def pconst_zone(t, total, tol):
+    """Where the running total t lies with respect to the constraint, and with
+    it which sentence of the documentation decides what Pconst does there.
+
+    Pconst help: "Embeds elements of the pattern into the stream until the sum
+    comes close enough to sum.  At that point, the difference between the
+    specified sum and the actual running sum is embedded."  How close is close
+    enough is the argument `tolerance` (default 0.001; the port keeps name and
+    default, and the same argument of Pdur - "Was Pfindur" - "until the
+    duration comes close enough to dur").  /repo has no doc string for these
+    classes, so those sentences are all there is.  With exact rational
+    arithmetic on the given numbers, d = sum - t:
+
+    'reached'  d <= 0.  The total has come up to the sum (or would pass it):
+               "at that point" the difference is embedded and the pattern
+               ends.  Decided by the help sentence under every reading of
+               "close enough".
+    'outside'  d > tolerance.  Not close enough under any reading in which
+               `tolerance` bounds the distance: the value is handed on.
+    'within'   0 < d < tolerance and sum is a multiple of tolerance (to one
+               part in 1e9: users write decimals).  Closer to the sum than
+               the tolerance: close enough, the pattern ends here.  This is
+               the whole window, both halves (sum - tol, sum - tol/2] and
+               (sum - tol/2, sum).
+    'border'   d == tolerance to one part in 1e9: "close enough" does not say
+               whether the border belongs to the window.  NOT decided.
+    'off-grid' 0 < d < tolerance but sum is not a multiple of tolerance: the
+               port (like sclang) compares the total quantised to multiples
+               of tolerance, which on such sums is a narrower window than the
+               distance; the help text does not speak about that.  NOT decided.
+    tolerance == 0: nothing but 'reached' is close enough.
+
+    The guard of 1e-9 (relative to the larger of |sum|, |t|, tolerance) around
+    the border is there because the library decides with IEEE doubles
+    (relative error 1e-16 per operation, three operations) and the model with
+    rationals."""
+    T, S, Q = Fraction(t), Fraction(total), Fraction(tol)
+    if Q < 0:
+        raise OutOfDomain('negative tolerance')
+    d = S - T
+    if d <= 0:
+        return 'reached'
+    if Q == 0:
+        return 'outside'
+    g = GUARD * max(abs(S), abs(T), Q)
+    if d > Q + g:
+        return 'outside'
+    if d >= Q - g:
+        return 'border'
+    k = S / Q
+    if abs(k - round(k)) <= GUARD * max(1, abs(k)) and round(k) >= 1:
+        return 'within'
+    return 'off-grid'
+
+
 def _pconst(node, c):
-    _, x, total = node
+    x, total = node[1], node[2]
+    tol = node[3] if len(node) > 3 else DEFAULT_TOLERANCE
     s = stream(x, c)
     acc = 0
     for v in s:
-        _exact(v)
+        if isinstance(v, bool) or not isinstance(v, (int, float)):
+            raise TypeError('Pconst of a non-number')
+        if not c.decimal:
+            _exact(v)               # (values are compared exactly: see _exact)
         nxt = acc + v
-        if nxt >= total:            # dyadic numbers: no "close enough" cases
+        zone = pconst_zone(nxt, total, tol)
+        if zone in ('border', 'off-grid'):
+            c.note('pconst_total_undecided_' + zone)
+            raise OutOfDomain('Pconst: running total in the undecided zone ' + zone)
+        if zone == 'within':
+            half = Fraction(total) - Fraction(nxt) > Fraction(tol) / 2
+            c.note('pconst_total_within_tolerance_' +
+                   ('lower_half' if half else 'upper_half'))
+        elif zone == 'reached':
+            c.note('pconst_total_equal_to_sum' if nxt == total
+                   else 'pconst_total_beyond_sum')
+        elif Fraction(total) - Fraction(nxt) <= 2 * Fraction(tol):
+            c.note('pconst_total_just_outside_tolerance')
+        if zone != 'outside':
             yield total - acc
             return
         acc = nxt
         yield v
     # source ended before the sum was reached: the remainder completes it
+    c.note('pconst_source_ended_first')
     yield total - acc
 
 
@@ -920,14 +1008,15 @@ SEM = {
 }
 
 
-def take(node, n, fuel=20000, leaves=None, inval=None):
+def take(node, n, fuel=20000, leaves=None, inval=None, notes=None):
     """At most n values of the denotation and whether the sequence ended
     within those n pulls.  Raises OutOfFuel for unproductive expressions.
     inval: None, a constant, or an Inval schedule - the value produced by pull
     j is computed with the input value of pull j (everything a pattern pulls
     from its sources during that pull sees the same input value)."""
     sched = inval if isinstance(inval, Inval) else Inval(inval, 0)
-    c = Ctx(fuel, leaves, sched.at(0))
+    c = Ctx(fuel, leaves, sched.at(0), notes)
+    c.decimal = has_decimal(node)
     g = den(node, c)
     out = []
     for j in range(n):
@@ -937,6 +1026,23 @@ def take(node, n, fuel=20000, leaves=None, inval=None):
         except StopIteration:
             return out, True
     return out, False
+
+
+def has_decimal(x):
+    """The expression has a float literal that is not a multiple of 2**-20
+    (0.1, 0.7493, the default tolerance is not a literal): model and library
+    then round, possibly in different (mathematically equal) formulas, and
+    values are compared to one part in 1e9 instead of exactly."""
+    if isinstance(x, float):
+        return x == x and abs(x) != INF and (x * 1048576.0) % 1.0 != 0.0
+    if isinstance(x, (list, tuple)):
+        return any(has_decimal(i) for i in x)
+    if isinstance(x, dict):
+        return any(has_decimal(i) for i in x.values())
+    return False
+
+
+REL = 1e-9
 
 
 def norm(v):
@@ -972,13 +1078,22 @@ def kind_is_fixed(node):
     return True
 
 
-def same_value(a, b):
+def same_value(a, b, rel=0.0):
+    """rel: only for expressions with decimal (non-dyadic) float literals,
+    where a series may legitimately be computed in closed form or by
+    accumulation: |a - b| <= rel * max(1, |a|, |b|)."""
     if isinstance(a, (list, tuple)) or isinstance(b, (list, tuple)):
         if not (isinstance(a, (list, tuple)) and isinstance(b, (list, tuple))):
             return False
-        return len(a) == len(b) and all(same_value(x, y) for x, y in zip(a, b))
+        return len(a) == len(b) and all(same_value(x, y, rel) for x, y in zip(a, b))
     if isinstance(a, float) and isinstance(b, float) and a != a and b != b:
         return True
+    if rel and isinstance(a, (int, float)) and isinstance(b, (int, float)) \
+            and not isinstance(a, bool) and not isinstance(b, bool):
+        try:
+            return abs(a - b) <= rel * max(1.0, abs(a), abs(b))
+        except Exception:
+            return False
     try:
         return bool(a == b)
     except Exception:
